@@ -8,6 +8,18 @@ def main():
     jobs = json.load(sys.stdin)
     from nmfu_api import compile_program
     from export import export_machine, Unsupported
+    # compile under the interpreter's default recursion limit, as a command-line run does (nmfu_api raises it for the
+    # harness's own recursive walks): what nmfu itself does to the limit then persists from job to job, as it would
+    # in any process that compiles several programs
+    sys.setrecursionlimit(1000)
+
+    def export_deep(dctx):
+        keep = sys.getrecursionlimit()
+        sys.setrecursionlimit(max(keep, 20000))
+        try:
+            return export_machine(dctx)
+        finally:
+            sys.setrecursionlimit(keep)
     rng = random.Random(jobs.get("junk_seed", 0))
     junk = []
     out = []
@@ -28,7 +40,7 @@ def main():
             # (numbering may legitimately follow hash order; everything else is a function of source and options)
             flags = sorted(f.name for f in nmfu.ProgramFlag if nmfu.ProgramData.do(f))
             api = sorted(set(re.findall(r"\b[A-Za-z_]+_hook\b|\bstate->[A-Za-z_]+_hook\b", o.source)))
-            out.append({"kind": "ok", "machine": export_machine(o.dctx), "nstates": len(o.dctx.dfa.states),
+            out.append({"kind": "ok", "machine": export_deep(o.dctx), "nstates": len(o.dctx.dfa.states),
                         "source_len": len(o.source), "flags": flags, "hook_refs": api, "header": o.header})
         except Unsupported as e:
             out.append({"kind": "unsupported", "msg": str(e)})
